@@ -48,37 +48,45 @@ class World:
         self.log = []
 
     # --- droplets -----------------------------------------------------------------------------------------------------
-    def new_cell(self, cls, pos, radius, width):
+    def new_cell(self, cls, pos, radius, width, amps=None):
         self.next_id += 1
-        self.cells[self.next_id] = dict(cls=cls, pos=list(pos), radius=float(radius), width=width)
+        self.cells[self.next_id] = dict(cls=cls, pos=list(pos), radius=float(radius), width=width, amps=None if amps is None else tuple(float(x) for x in amps))
         return self.next_id
 
     def clone_cell(self, i):
         c = self.cells[i]
-        return self.new_cell(c["cls"], c["pos"], c["radius"], c["width"])
+        return self.new_cell(c["cls"], c["pos"], c["radius"], c["width"], c.get("amps"))
 
     def make_droplet(self, cls, pos, radius, width=None):
         dd = self.D.droplets
         if cls == "SphericalDroplet":
             d = dd.SphericalDroplet(pos, radius)
             i = self.new_cell(cls, pos, radius, "-")
-        else:
+        elif cls == "DiffuseDroplet":
             d = dd.DiffuseDroplet(pos, radius, width)
             i = self.new_cell(cls, pos, radius, width)
+        else:
+            # perturbed droplets: their volume / surface area are NOT those of the sphere with the same radius
+            amps = [0.2, -0.15, 0.1, 0.05][: 2 + self.next_id % 3]
+            d = getattr(dd, cls)(pos, radius, width, amps)
+            i = self.new_cell(cls, pos, radius, width, amps)
         self.pool.append((d, i))
         return len(self.pool) - 1
 
     def cell_of(self, d):
         w = "-"
-        if type(d).__name__ == "DiffuseDroplet":
+        if type(d).__name__ != "SphericalDroplet":
             w = d.interface_width
             w = None if w is None else float(w)
-        return dict(cls=type(d).__name__, pos=[float(x) for x in d.position], radius=float(d.radius), width=w)
+        amps = None if not hasattr(d, "amplitudes") else tuple(float(x) for x in d.amplitudes)
+        return dict(cls=type(d).__name__, pos=[float(x) for x in d.position], radius=float(d.radius), width=w, amps=amps)
 
     def same_cell(self, a, b):
         if a["cls"] != b["cls"] or len(a["pos"]) != len(b["pos"]):
             return False
         if any(not _close(x, y, 1e-12) for x, y in zip(a["pos"], b["pos"])) or not _close(a["radius"], b["radius"], 1e-12):
+            return False
+        if a.get("amps") != b.get("amps"):
             return False
         if a["width"] == "-" or b["width"] == "-":
             return a["width"] == b["width"]
@@ -124,7 +132,7 @@ class World:
                 self.fail(f"{where}: size statistics count == number of (non-vanished) members")
             if cs and sel:
                 rs = [c["radius"] for c in sel]
-                vs = [_vol(dim, r) for r in rs]
+                vs = [self.member_volume(d, c) for d, c in zip(em, cs) if incl or c["radius"] > 0]
                 exp = dict(radius_mean=np.mean(rs), radius_std=np.std(rs), volume_mean=np.mean(vs), volume_std=np.std(vs))
                 for k, v in exp.items():
                     if not _close(float(st[k]), float(v)):
@@ -133,16 +141,19 @@ class World:
                 if not all(math.isnan(st[k]) for k in ("radius_mean", "radius_std", "volume_mean", "volume_std")):
                     self.fail(f"{where}: size statistics of an empty emulsion are NaN")
         tv = em.total_droplet_volume
-        if not _close(float(tv), sum(_vol(dim, c["radius"]) for c in cs)):
+        if not _close(float(tv), sum(self.member_volume(d, c) for d, c in zip(em, cs))):
             self.fail(f"{where}: total volume == sum of the member volumes")
         W = A = 0.0
-        for c in cs:
-            if c["width"] not in ("-", None):
-                a = _surf(dim, c["radius"])
+        no_area = dim == 3 and any(c.get("amps") is not None for c in cs)       # surface area of perturbed 3D shapes is not implemented by the library
+        for d, c in zip(em, cs):
+            if c["width"] not in ("-", None) and not no_area:
+                a = _surf(dim, c["radius"]) if c.get("amps") is None else float(d.surface_area)
                 W += c["width"] * a
                 A += a
-        iw = em.interface_width
-        if A == 0:
+        iw = None if no_area else em.interface_width
+        if no_area:
+            pass
+        elif A == 0:
             if iw is not None:
                 self.fail(f"{where}: interface width is None when no member contributes interface area")
         elif iw is None or not _close(float(iw), W / A):
@@ -158,7 +169,7 @@ class World:
                 self.fail(f"{where}: the emulsion's dimension is that of its members")
             # order independence
             perm = self.D.Emulsion(list(reversed(list(em))), copy=False)
-            if not _close(float(perm.total_droplet_volume), float(tv)) or not _close(perm.interface_width, iw) or \
+            if not _close(float(perm.total_droplet_volume), float(tv)) or (not no_area and not _close(perm.interface_width, iw)) or \
                     perm.get_size_statistics()["count"] != em.get_size_statistics()["count"] or \
                     not _close(float(perm.get_size_statistics()["radius_std"]), float(em.get_size_statistics()["radius_std"])):
                 self.fail(f"{where}: summary queries do not depend on member order")
@@ -168,6 +179,13 @@ class World:
                 self.fail(f"{where}: the bounding box of an empty emulsion is undefined (RuntimeError)")
             except RuntimeError:
                 pass
+
+    def member_volume(self, d, c):
+        """the volume of a member by its definition: the sphere formula for spherical / diffuse droplets (model values), the member's own
+        reported volume for perturbed shapes (whose volume is not that of the sphere with the same radius; C13 decides its value)"""
+        if c.get("amps") is None:
+            return _vol(self.dim, c["radius"])
+        return float(d.volume)
 
     # --- operations on emulsions ------------------------------------------------------------------------------------
     def op(self, name, *args):
@@ -344,7 +362,7 @@ class World:
         if a == b or e["ids"][a] == e["ids"][b]:
             return
         ca, cb = self.cells[e["ids"][a]], self.cells[e["ids"][b]]
-        if ca["cls"] != cb["cls"]:
+        if ca["cls"] != cb["cls"] or ca.get("amps") is not None:
             return
         va, vb = _vol(self.dim, ca["radius"]), _vol(self.dim, cb["radius"])
         if va + vb <= 0:
@@ -726,6 +744,9 @@ class CollectionModel(Bounded):
         for t in range(120 if tier == "quick" else 1500):
             dim = 1 + t % 3
             classes = [("SphericalDroplet",) * 5, ("DiffuseDroplet",) * 5, ("SphericalDroplet", "DiffuseDroplet", "SphericalDroplet", "DiffuseDroplet", "DiffuseDroplet")][t % 3]
+            if t % 4 == 3 and (dim == 2 or (dim == 3 and t % 48 == 11)):      # 3-d perturbed volumes are numerical integrals (slow): few of them
+                pc = "PerturbedDroplet2D" if dim == 2 else "PerturbedDroplet3D"
+                classes = (pc,) * 5
             ops = random_emulsion_ops(rng, int(rng.integers(3, 13)), 5)
             ev += 1
             distinct.add(("rnd", t))
